@@ -1,9 +1,9 @@
 #!/bin/bash
-# seed_sweep.sh <lane> <dir:ID> ... : run seeded changes in scratch lane /tmp/seedrun<lane>; append results to /tmp/confirm/${SEED_RESULTS:-/tmp/confirm/seed_results.txt}
+# seed_sweep.sh <lane> <dir:ID> ... : run seeded changes in scratch lane /tmp/seedrun<lane>; append results to ${SEED_RESULTS:-/tmp/confirm/seed_results.txt}
 LANE="$1"; shift
 export SEEDRUN_DIR=/tmp/seedrun$LANE
 for x in "$@"; do d=${x%%:*}; id=${x##*:}
   OUT=$(/verif/tools/scratch_seeded.sh /verif/seeded/$d $id quick 1 2 2>&1)
   echo "$OUT" > /tmp/confirm/seedrun_$d.log
-  echo "$OUT" | grep "^RESULT" >> /tmp/confirm/${SEED_RESULTS:-/tmp/confirm/seed_results.txt}
+  echo "$OUT" | grep "^RESULT" >> ${SEED_RESULTS:-/tmp/confirm/seed_results.txt}
 done
